@@ -21,6 +21,7 @@ type canonizer struct {
 	scope ast.Node // declarations inside this node are local
 	subst map[string]string
 	names map[types.Object]string
+	next  int // last number handed out (seeded entries of names do not count)
 	b     strings.Builder
 }
 
@@ -50,11 +51,15 @@ func (c *canonizer) ident(id *ast.Ident) string {
 		}
 		return id.Name
 	}
+	if n, ok := c.names[o]; ok && strings.HasPrefix(n, "\x00") {
+		return n
+	}
 	if c.local(o) {
 		if n, ok := c.names[o]; ok {
 			return n
 		}
-		n := fmt.Sprintf("$%d", len(c.names)+1)
+		c.next++
+		n := fmt.Sprintf("$%d", c.next)
 		c.names[o] = n
 		return n
 	}
@@ -82,6 +87,11 @@ func (c *canonizer) node(n ast.Node) {
 			c.b.WriteString("SelectorExpr (")
 			return true
 		case *ast.Ident:
+			if r := c.ident(x); strings.HasPrefix(r, "\x00") {
+				// an inlined helper's parameter: the caller's argument, verbatim
+				c.b.WriteString(r[1:])
+				return false
+			}
 			c.b.WriteString(c.ident(x) + " ")
 			// no children; but Inspect will call with nil afterwards
 			c.b.WriteString("(")
